@@ -11,8 +11,8 @@
 From Coq Require Import List NArith ZArith Bool Lia.
 From Coq.Strings Require Import Byte.
 Require Import GV.Base.Res GV.Base.Byt GV.Base.Ints GV.Model.Prim.
-Require Import GV.Model.Reloc GV.Proofs.RelocProofs.
-(* (GV.Model.Attr, the C03 model, supplies allow_section_offset; it is not imported here to keep names apart) *)
+Require Import GV.Spec.FormSpec GV.Model.Attr.
+Require Import GV.Model.Reloc GV.Proofs.RelocProofs GV.Model.RelocPar GV.Proofs.RelocParProofs.
 Import ListNotations.
 Local Open Scope N_scope.
 
@@ -311,3 +311,228 @@ Check parser_reloc : forall (A : Type) (be dbg : bool) (R : list rrel) (p : prog
 Check identity_reloc : forall (A : Type) (be dbg : bool) (p : prog A) (bs : list byte) (base : N),
   out_reloc (snd (run_reloc_rd be dbg id_relocator p (rrd_new (mkRd base bs)))) =
   out_plain (mkRd base bs) (run_plain_rd be dbg p (mkRd base bs)).
+
+(* ================================================================ the real parsers (extension c18par) *)
+(* Model/RelocPar.v writes the gimli parsers in the reader monad, field by field in the order of the Rust, each
+   field with the Reader method the Rust uses; stream c18.parsers runs every one of them against gimli through
+   RelocateReader (values, errors and the (offset, value) pairs handed to Relocate), debug and release.
+
+   (5) STATIC form of (3), for EVERY parser of the monad.  `field_trace p P` is the field map of parser p on the
+   section P as a plain reader sees it AFTER relocation: every span read, tagged plain or relocatable(width) —
+   `run_plain_tr` is the plain interpreter with that trace and nothing else (run_plain_tr_is_plain).  If
+     * the sites of R are pairwise disjoint,
+     * every relocated value fits its field (`fitsb`: explicit addend, or raw field value + implicit addend),
+     * R respects the field map (`shape_okb`: no site touches a plainly read span; a site touching a relocatable
+       field is exactly that field: same position, same width),
+   then reading the raw section through RelocateReader = reading the applied section plainly.  No run of the
+   relocating reader appears in the hypotheses. *)
+Theorem parser_reloc_static :
+  forall (A : Type) (be dbg : bool) (R : list rrel) (p : prog A) (bs : list byte) (base : N),
+  sites_disjointb R = true -> fitsb be R bs = true ->
+  forallb (shape_okb R) (field_trace be dbg base p (apply_rrels be R bs)) = true ->
+  out_reloc (snd (run_reloc_rd be dbg (map_relocator R) p (rrd_new (mkRd base bs)))) =
+  out_plain (mkRd base (apply_rrels be R bs))
+            (run_plain_rd be dbg p (mkRd base (apply_rrels be R bs))).
+Proof. exact parser_reloc_static_lemma. Qed.
+
+(* the static condition implies the dynamic one of parser_reloc (the streams evaluate both on every case) *)
+Theorem static_implies_trace_ok :
+  forall (A : Type) (be dbg : bool) (R : list rrel) (p : prog A) (bs : list byte) (base : N),
+  static_okb be dbg base R p bs = true ->
+  trace_ok R (fst (run_reloc_rd be dbg (map_relocator R) p (rrd_new (mkRd base bs)))).
+Proof. exact static_okb_sound. Qed.
+
+Theorem run_plain_tr_is_plain : forall (A : Type) (be dbg : bool) (base : N) (p : prog A) (r : rd),
+  snd (run_plain_tr be dbg base p r) = run_plain_rd be dbg p r.
+Proof. intros. apply run_plain_tr_snd. Qed.
+
+(* ---- instances: one per gimli parser; the hypothesis is the decidable static condition ---- *)
+
+(* src/read/line.rs: LineProgramHeader::parse (DWARF 2..5; unit_length and header_length are read_length — plain;
+   version 5 directory/file entries through the line variant of parse_attribute: DW_FORM_line_strp / strp /
+   strp_sup / GNU_strp_alt / sec_offset are read_offset, data*/udata/block/string plain) followed by every
+   LineInstruction::parse of the program (DW_LNE_set_address operand = read_address; every other operand plain) *)
+Theorem parser_reloc_line : forall (be dbg : bool) (fuel : nat) (asz0 : N) (R : list rrel) (bs : list byte) (base : N),
+  let p := p_line fuel asz0 in
+  static_okb be dbg base R p bs = true ->
+  out_reloc (snd (run_reloc_rd be dbg (map_relocator R) p (rrd_new (mkRd base bs)))) =
+  out_plain (mkRd base (apply_rrels be R bs))
+            (run_plain_rd be dbg p (mkRd base (apply_rrels be R bs))).
+Proof. intros. now apply parser_reloc_static_b_lemma. Qed.
+
+(* src/read/unit.rs parse_attribute over the whole form table (DW_FORM_indirect included), at offset `field` *)
+Theorem parser_reloc_attr : forall (be dbg : bool) (fuel : nat) (e : enc) (spec : aspec) (field : N) (R : list rrel) (bs : list byte) (base : N),
+  let p := PSkip field (p_attr fuel e spec) in
+  static_okb be dbg base R p bs = true ->
+  out_reloc (snd (run_reloc_rd be dbg (map_relocator R) p (rrd_new (mkRd base bs)))) =
+  out_plain (mkRd base (apply_rrels be R bs))
+            (run_plain_rd be dbg p (mkRd base (apply_rrels be R bs))).
+Proof. intros. now apply parser_reloc_static_b_lemma. Qed.
+
+(* src/read/rnglists.rs: .debug_rnglists entries (RawRngListEntry::parse, Rle) iterated by RawRngListIter *)
+Theorem parser_reloc_rnglist : forall (be dbg : bool) (fuel : nat) (asz : N) (R : list rrel) (bs : list byte) (base : N),
+  let p := p_rnglist fuel asz [] in
+  static_okb be dbg base R p bs = true ->
+  out_reloc (snd (run_reloc_rd be dbg (map_relocator R) p (rrd_new (mkRd base bs)))) =
+  out_plain (mkRd base (apply_rrels be R bs))
+            (run_plain_rd be dbg p (mkRd base (apply_rrels be R bs))).
+Proof. intros. now apply parser_reloc_static_b_lemma. Qed.
+
+(* src/read/loclists.rs: .debug_loclists / GNU .debug_loc.dwo entries (Lle) and legacy .debug_loc (Bare) *)
+Theorem parser_reloc_loclist : forall (be dbg : bool) (fuel : nat) (ver asz : N) (R : list rrel) (bs : list byte) (base : N),
+  let p := p_loclist fuel ver asz [] in
+  static_okb be dbg base R p bs = true ->
+  out_reloc (snd (run_reloc_rd be dbg (map_relocator R) p (rrd_new (mkRd base bs)))) =
+  out_plain (mkRd base (apply_rrels be R bs))
+            (run_plain_rd be dbg p (mkRd base (apply_rrels be R bs))).
+Proof. intros. now apply parser_reloc_static_b_lemma. Qed.
+
+Theorem parser_reloc_loc_bare : forall (be dbg : bool) (fuel : nat) (asz : N) (R : list rrel) (bs : list byte) (base : N),
+  let p := p_loc_bare fuel asz [] in
+  static_okb be dbg base R p bs = true ->
+  out_reloc (snd (run_reloc_rd be dbg (map_relocator R) p (rrd_new (mkRd base bs)))) =
+  out_plain (mkRd base (apply_rrels be R bs))
+            (run_plain_rd be dbg p (mkRd base (apply_rrels be R bs))).
+Proof. intros. now apply parser_reloc_static_b_lemma. Qed.
+
+(* src/read/aranges.rs: ArangeHeader::parse (debug_info_offset = read_offset) + tuples (read_address) *)
+Theorem parser_reloc_aranges : forall (be dbg : bool) (fuel : nat) (R : list rrel) (bs : list byte) (base : N),
+  let p := p_aranges fuel in
+  static_okb be dbg base R p bs = true ->
+  out_reloc (snd (run_reloc_rd be dbg (map_relocator R) p (rrd_new (mkRd base bs)))) =
+  out_plain (mkRd base (apply_rrels be R bs))
+            (run_plain_rd be dbg p (mkRd base (apply_rrels be R bs))).
+Proof. intros. now apply parser_reloc_static_b_lemma. Qed.
+
+(* src/read/lookup.rs: .debug_pubnames/.debug_pubtypes sets (unit_offset and DIE offsets = read_offset;
+   unit_length = read_length, plain) *)
+Theorem parser_reloc_pubnames : forall (be dbg : bool) (fuel sfuel : nat) (R : list rrel) (bs : list byte) (base : N),
+  let p := p_pubnames fuel sfuel [] in
+  static_okb be dbg base R p bs = true ->
+  out_reloc (snd (run_reloc_rd be dbg (map_relocator R) p (rrd_new (mkRd base bs)))) =
+  out_plain (mkRd base (apply_rrels be R bs))
+            (run_plain_rd be dbg p (mkRd base (apply_rrels be R bs))).
+Proof. intros. now apply parser_reloc_static_b_lemma. Qed.
+
+(* ---- which primitive: the content of the attribute instance, stated on the form table ---- *)
+
+Theorem attr_offset_forms : forall (A : Type) (k : list N -> prog A) (fuel : nat) (e : enc) (spec : aspec) (form : N),
+  In form [DW_FORM_strp; DW_FORM_sec_offset; DW_FORM_strp_sup; DW_FORM_line_strp; DW_FORM_GNU_ref_alt; DW_FORM_GNU_strp_alt] ->
+  exists tag, p_attr_direct k fuel e spec form = POffset (fmt64 e) (fun v => k [tag; v]).
+Proof. exact attr_offset_forms_lemma. Qed.
+
+Theorem attr_addr_form : forall (A : Type) (k : list N -> prog A) (fuel : nat) (e : enc) (spec : aspec),
+  p_attr_direct k fuel e spec DW_FORM_addr = PAddr (address_size e) (fun v => k [T_Addr; v]).
+Proof. exact attr_addr_form_lemma. Qed.
+
+Theorem attr_ref_addr_form : forall (A : Type) (k : list N -> prog A) (fuel : nat) (e : enc) (spec : aspec),
+  p_attr_direct k fuel e spec DW_FORM_ref_addr =
+  if version e =? 2 then PSized (address_size e) (fun v => k [T_DebugInfoRef; v])
+  else POffset (fmt64 e) (fun v => k [T_DebugInfoRef; v]).
+Proof. exact attr_ref_addr_form_lemma. Qed.
+
+Theorem attr_plain_forms : forall (A : Type) (k : list N -> prog A) (fuel : nat) (e : enc) (spec : aspec) (form : N),
+  In form [DW_FORM_data1; DW_FORM_data2; DW_FORM_data16; DW_FORM_ref1; DW_FORM_ref2; DW_FORM_ref4; DW_FORM_ref8;
+           DW_FORM_ref_sig8; DW_FORM_ref_sup4; DW_FORM_ref_sup8; DW_FORM_strx1; DW_FORM_strx2; DW_FORM_strx3;
+           DW_FORM_strx4; DW_FORM_addrx1; DW_FORM_addrx2; DW_FORM_addrx3; DW_FORM_addrx4] ->
+  exists n tag, p_attr_direct k fuel e spec form = PU n (fun v => k [tag; v]).
+Proof. exact attr_plain_forms_lemma. Qed.
+
+Theorem attr_leb_forms : forall (A : Type) (k : list N -> prog A) (fuel : nat) (e : enc) (spec : aspec) (form : N),
+  In form [DW_FORM_udata; DW_FORM_ref_udata; DW_FORM_strx; DW_FORM_addrx; DW_FORM_loclistx; DW_FORM_rnglistx;
+           DW_FORM_GNU_str_index; DW_FORM_GNU_addr_index] ->
+  exists tag, p_attr_direct k fuel e spec form = PUleb (fun v => k [tag; v]).
+Proof. exact attr_leb_forms_lemma. Qed.
+
+Theorem line_attr_offset_forms : forall (A : Type) (sfuel : nat) (fmt md5 : bool) (k : list N -> prog A) (form : N),
+  In form [DW_FORM_strp; DW_FORM_sec_offset; DW_FORM_strp_sup; DW_FORM_line_strp; DW_FORM_GNU_strp_alt] ->
+  exists tag, p_line_attr sfuel fmt md5 form k = POffset fmt (fun v => k [tag; v]).
+Proof. exact line_attr_offset_forms_lemma. Qed.
+
+(* ---- non-vacuity and the NEGATIVE half: a relocation on a plainly read field is not transparent ---- *)
+
+(* observation of one case: (static condition, relocating run, plain run on applied bytes, relocatable fields) *)
+Definition both_runs {A} (R : list rrel) (p : prog A) (bs : list byte) :=
+  (static_okb false true 0 R p bs,
+   out_reloc (snd (run_reloc_rd false true (map_relocator R) p (rrd_new (mkRd 0 bs)))),
+   out_plain (mkRd 0 (apply_rrels false R bs)) (run_plain_rd false true p (mkRd 0 (apply_rrels false R bs))),
+   field_sites (field_trace false true 0 p (apply_rrels false R bs))).
+
+(* a DWARF 4 line program: one file, DW_LNE_set_address 0x10, a special opcode, end_sequence *)
+Definition ex_line_bytes : list byte := [x2e; x00; x00; x00; x04; x00; x19; x00; x00; x00; x01; x01; x01; xfb; x0e; x0d; x00; x01; x01; x01; x01; x00; x00; x00; x01; x00; x00; x01; x00; x61; x00; x00; x00; x00; x00; x00; x09; x02; x10; x00; x00; x00; x00; x00; x00; x00; x20; x00; x01; x01].
+(* its only relocatable field is the set_address operand (offset 38, 8 bytes); relocated: address 0x1010 both ways *)
+Example ex_line_set_address :
+  both_runs [mkRrel 38 8 true 4096] (p_line 60 8) ex_line_bytes =
+  (true,
+   Ok ([46; 4; 4; 8; 25; 1; 1; 1; 251; 14; 13; 111; 222; 17; 1; 0; 0; 0; 0; 0; 0; 333; 0; 2; 4112; 32; 0; 1], 50, 0),
+   Ok ([46; 4; 4; 8; 25; 1; 1; 1; 251; 14; 13; 111; 222; 17; 1; 0; 0; 0; 0; 0; 0; 333; 0; 2; 4112; 32; 0; 1], 50, 0),
+   [(38, 8)]).
+Proof. vm_compute. reflexivity. Qed.
+(* header_length (offset 6) is read_length: a relocation there is outside the field map, and the two readings differ *)
+Example ex_line_header_length_not_transparent :
+  match both_runs [mkRrel 6 4 true 1] (p_line 60 8) ex_line_bytes with
+  | (ok, r, p, _) => ok = false /\ r <> p
+  end.
+Proof. vm_compute. split; [reflexivity|discriminate]. Qed.
+Example ex_line_unit_length_not_transparent :
+  match both_runs [mkRrel 0 4 false 45] (p_line 60 8) ex_line_bytes with
+  | (ok, r, p, _) => ok = false /\ r <> p
+  end.
+Proof. vm_compute. split; [reflexivity|discriminate]. Qed.
+
+(* one DIE attribute at offset 12 of a DWARF 4 unit holding 0x34, relocation +0x1000 on it *)
+Definition ex_attr_bytes : list byte := [x0c; x00; x00; x00; x04; x00; x00; x00; x00; x00; x08; x01; x34; x00; x00; x00].
+Definition ex_e4 : enc := mkEnc 4 false 8 false.
+Example ex_attr_strp_transparent :
+  both_runs [mkRrel 12 4 true 4096] (PSkip 12 (p_attr 20 ex_e4 (mkSpec 3 DW_FORM_strp 0))) ex_attr_bytes =
+  (true, Ok ([T_DebugStrRef; 4148], 16, 0), Ok ([T_DebugStrRef; 4148], 16, 0), [(12, 4)]).
+Proof. vm_compute. reflexivity. Qed.
+(* the same bytes as DW_FORM_data4 of DW_AT_decl_line, or as DW_FORM_ref4: plain reads, not transparent *)
+Example ex_attr_data4_not_transparent :
+  both_runs [mkRrel 12 4 true 4096] (PSkip 12 (p_attr 20 ex_e4 (mkSpec 59 DW_FORM_data4 0))) ex_attr_bytes =
+  (false, Ok ([T_Data4; 52], 16, 0), Ok ([T_Data4; 4148], 16, 0), []).
+Proof. vm_compute. reflexivity. Qed.
+Example ex_attr_ref4_not_transparent :
+  both_runs [mkRrel 12 4 true 4096] (PSkip 12 (p_attr 20 ex_e4 (mkSpec 73 DW_FORM_ref4 0))) ex_attr_bytes =
+  (false, Ok ([T_UnitRef; 52], 16, 0), Ok ([T_UnitRef; 4148], 16, 0), []).
+Proof. vm_compute. reflexivity. Qed.
+
+(* .debug_rnglists: DW_RLE_start_length 0x10 +5, DW_RLE_offset_pair 1 2, end *)
+Definition ex_rle_bytes : list byte := [x07; x10; x00; x00; x00; x00; x00; x00; x00; x05; x04; x01; x02; x00].
+Example ex_rle_start_length_transparent :
+  both_runs [mkRrel 1 8 true 4096] (p_rnglist 20 8 []) ex_rle_bytes =
+  (true, Ok ([7; 4112; 5; 4; 1; 2], 14, 0), Ok ([7; 4112; 5; 4; 1; 2], 14, 0), [(1, 8)]).
+Proof. vm_compute. reflexivity. Qed.
+(* the operands of DW_RLE_offset_pair are ULEB128s: not relocatable *)
+Example ex_rle_offset_pair_not_transparent :
+  both_runs [mkRrel 11 1 true 3] (p_rnglist 20 8 []) ex_rle_bytes =
+  (false, Ok ([7; 16; 5; 4; 1; 2], 14, 0), Ok ([7; 16; 5; 4; 4; 2], 14, 0), [(1, 8)]).
+Proof. vm_compute. reflexivity. Qed.
+
+(* .debug_aranges: one set, debug_info_offset 0x40, one tuple (0x1000, 0x20), terminator *)
+Definition ex_aranges_bytes : list byte := [x2c; x00; x00; x00; x02; x00; x40; x00; x00; x00; x08; x00; x00; x00; x00; x00; x00; x10; x00; x00; x00; x00; x00; x00; x20; x00; x00; x00; x00; x00; x00; x00; x00; x00; x00; x00; x00; x00; x00; x00; x00; x00; x00; x00; x00; x00; x00; x00].
+Example ex_aranges_transparent :
+  both_runs [mkRrel 6 4 true 256; mkRrel 16 8 false 8192] (p_aranges 60) ex_aranges_bytes =
+  (true, Ok ([44; 4; 2; 320; 8; 8192; 32], 48, 0), Ok ([44; 4; 2; 320; 8; 8192; 32], 48, 0),
+   [(6, 4); (16, 8); (24, 8); (32, 8); (40, 8)]).
+Proof. vm_compute. reflexivity. Qed.
+Example ex_aranges_length_not_transparent :
+  match both_runs [mkRrel 0 4 false 28] (p_aranges 60) ex_aranges_bytes with
+  | (ok, r, p, _) => ok = false /\ r <> p
+  end.
+Proof. vm_compute. split; [reflexivity|discriminate]. Qed.
+
+(* .debug_pubnames: one set (unit offset 0x40, unit_length 0x100), entry (0x2a, "foo"), terminator: the unit offset,
+   the DIE offset and the terminator word are the relocatable fields *)
+Definition ex_pub_bytes : list byte := [x16; x00; x00; x00; x02; x00; x40; x00; x00; x00; x00; x01; x00; x00; x2a; x00; x00; x00; x66; x6f; x6f; x00; x00; x00; x00; x00].
+Example ex_pubnames_transparent :
+  both_runs [mkRrel 6 4 true 256; mkRrel 14 4 true 16] (p_pubnames 40 40 []) ex_pub_bytes =
+  (true, Ok ([320; 58; 3], 26, 0), Ok ([320; 58; 3], 26, 0), [(6, 4); (14, 4); (22, 4)]).
+Proof. vm_compute. reflexivity. Qed.
+
+Check parser_reloc_static :
+  forall (A : Type) (be dbg : bool) (R : list rrel) (p : prog A) (bs : list byte) (base : N),
+  sites_disjointb R = true -> fitsb be R bs = true ->
+  forallb (shape_okb R) (field_trace be dbg base p (apply_rrels be R bs)) = true ->
+  out_reloc (snd (run_reloc_rd be dbg (map_relocator R) p (rrd_new (mkRd base bs)))) =
+  out_plain (mkRd base (apply_rrels be R bs)) (run_plain_rd be dbg p (mkRd base (apply_rrels be R bs))).
